@@ -124,7 +124,7 @@ def make_worker(tier):
 def run(args):
     chk = common.Check('C05', 'model_checking', args.tier)
     fams = base.families_for(args.tier, args.families, quick=('S0', 'S1', 'S2', 'S4', 'S5'), thorough=('S0', 'S1', 'S2', 'S3', 'S4', 'S5'))
-    stats, distinct, samples = base.run_sweep(chk, args, make_worker(args.tier), fams=fams)
+    stats, distinct, samples = base.run_sweep(chk, args, make_worker(args.tier), fams=fams, shape_tier='quick')
     cov = dict(states=stats['states'], transitions=stats['transitions'], traces_validated_against_impl=stats['transitions'],
                evaluations=stats['encodings'], distinct_nontrivial=len(distinct), decoder_calls=stats['calls'],
                rule='per encoding (reference DER, BER variants with indefinite lengths / constructed strings / unknown extensions / permuted SETs, reference OER, '
